@@ -154,7 +154,7 @@ RECONF = [(None, [], []), (1, [], []), (None, [4], []), (None, [], [0x40c]), (2,
 
 
 def judge_reconfigure(stream, cfgs, first_traces):
-    """one PyKdebugParser object, its filters re-set between requests: every kevents() listing must equal the listing of a
+    """one PyKdebugParser object, its filters re-set (or, first_traces == 'inplace', its two filter lists edited in place) between requests: every kevents() listing must equal the listing of a
     fresh object with that configuration (a verdict cached from an earlier configuration must not survive)."""
     blob, recs = container('v2', stream, ())
     f = PyKdebugParser()
@@ -162,8 +162,17 @@ def judge_reconfigure(stream, cfgs, first_traces):
     if first_traces is True:
         f.filter_tid, f.filter_class, f.filter_subclass = cfgs[0]
         list(f.traces(io.BytesIO(blob)))
+    own_c, own_s = [], []
+    if first_traces == 'inplace':
+        # the caller keeps ONE class list and ONE subclass list on the object and edits them in place between requests
+        f.filter_class, f.filter_subclass = own_c, own_s
     for step, (T, C, S) in enumerate(cfgs):
-        f.filter_tid, f.filter_class, f.filter_subclass = T, C, S
+        if first_traces == 'inplace':
+            f.filter_tid = T
+            own_c[:] = list(C)
+            own_s[:] = list(S)
+        else:
+            f.filter_tid, f.filter_class, f.filter_subclass = T, C, S
         try:
             if first_traces == 'lazy':
                 # the listing is requested, then (the caller's settings untouched) other requests run to their end on the same
@@ -198,7 +207,7 @@ class C12(Check):
             'records over 5 (tid,pid,process) shapes; x filter configurations: filter_tid in {None,0,1,2,9} x filter_class in '
             'all lists of <=2 over {1,3,4,7,0xff} (duplicates, tuple type) x filter_subclass in all lists of <=2 over '
             '{0x40c,0x40d,0x301,0x140} (v2: full product for the tid/class/subclass filters on streams of <=2 records, lists of <=1 entries plus 6 two-entry / tuple-typed ones on streams of 3; v3: class/subclass reduced to 6x4, '
-            'process filter in {None,name,pid-string,other}). Plus the command-line tool (kevents --tid/-cf/-sf in decimal and 0x form; logs --tid/--process) against the same reference. Plus request histories: all sequences of 3 filter configurations (7 kinds) applied in turn to ONE parser object, optionally after a traces() request, or with every listing requested first and read only after a traces() and a callstacks() request ran to their end on the same object, on 3 streams - each listing must equal the reference for its own configuration. Oracle: listing == reference comprehension over the independent '
+            'process filter in {None,name,pid-string,other}). Plus the command-line tool (kevents --tid/-cf/-sf in decimal and 0x form; logs --tid/--process) against the same reference. Plus request histories: all sequences of 3 filter configurations (7 kinds) applied in turn to ONE parser object, optionally after a traces() request, or with every listing requested first and read only after a traces() and a callstacks() request ran to their end on the same object, or with the object keeping ONE class list and ONE subclass list that the caller edits in place between the requests, on 3 streams - each listing must equal the reference for its own configuration. Oracle: listing == reference comprehension over the independent '
             'decode; logs never among events and vice versa. non-trivial = the event filter removes at least one and keeps at least '
             'one record. states = distinct filter configurations; transitions = parses.')
     assumptions = ('configuration x history product is complete within the stated alphabets',)
@@ -226,9 +235,9 @@ class C12(Check):
         for stream in streams:
             for rest in itertools.product(range(len(RECONF)), repeat=2):
                 cfgs = [RECONF[first]] + [RECONF[i] for i in rest]
-                for first_traces in (False, True, 'lazy'):
+                for first_traces in (False, True, 'lazy', 'inplace'):
                     bad = judge_reconfigure(stream, cfgs, first_traces)
-                    acc.case(nontrivial=True, transitions=len(cfgs) + (3 * len(cfgs) if first_traces == 'lazy' else int(first_traces)), state=h64(repr(cfgs[-1])))
+                    acc.case(nontrivial=True, transitions=len(cfgs) + (3 * len(cfgs) if first_traces == 'lazy' else int(first_traces is True)), state=h64(repr(cfgs[-1])))
                     if bad:
                         acc.violation(bad[0], {'kind': 'reconf', 'stream': list(stream), 'cfgs': [[c[0], list(c[1]), list(c[2])] for c in cfgs],
                                                'types': [[type(c[1]).__name__, type(c[2]).__name__] for c in cfgs],
